@@ -104,6 +104,14 @@ def diffVel {α : Type} [VOps α] (D dt xi : α) : α :=
 def diffDisp {α : Type} [VOps α] (D dt dx xi : α) : α :=
   diffVel D dt xi * dt / dx
 
+/-! the layout of one step's stream of standard normal draws: `rng.normal(size=n)` for U, then
+    for V (horizontal diffusion on), then for W (vertical diffusion on) -/
+
+def drawU (_n k : Nat) : Nat := k
+def drawV (n k : Nat) : Nat := n + k
+def drawW (n k : Nat) (hdiff : Bool) : Nat := (if hdiff then 2 * n else 0) + k
+def drawsPerStep (n : Nat) (hdiff vdiff : Bool) : Nat := (if hdiff then 2 * n else 0) + (if vdiff then n else 0)
+
 /-- `Tracker.update` for one particle -/
 def trackerStep (cfg : TrkCfg) (g : GridM) (vel : VelOracle) (du dv wdiff wadv : Rat) (p : Part) :
     Option Part := do
